@@ -26,6 +26,14 @@ REGISTRY = {
     "C25": ("harness.p_c25", 40, 240),
     "C24": ("harness.p_c24", 30, 240),
     "C23": ("harness.p_c23", 60, 300),
+    "C11": ("harness.p_c11", 60, 600),
+    "C12": ("harness.p_solvers", 60, 600),
+    "C13": ("harness.p_solvers", 60, 600),
+    "C14": ("harness.p_solvers", 60, 600),
+    "C15": ("harness.p_solvers", 60, 600),
+    "C16": ("harness.p_solvers", 60, 600),
+    "C17": ("harness.p_solvers", 60, 600),
+    "C18": ("harness.p_solvers", 60, 600),
     "C19": ("harness.p_c19", 120, 1200),
     "C21": ("harness.p_vsa", 60, 300),
     "C22": ("harness.p_vsa", 60, 300),
